@@ -608,9 +608,31 @@ func runC05Proc(c *fw.Case) {
 		tarArgs = append(tarArgs, "--input-format", "tar")
 		ignore["xattr"] = true // not put into the tar input
 	}
+	// flags that waive one attribute each: the rest must still be reproduced, and the waived one must be what the
+	// flag says (current user / left to the umask / not restored)
+	noOwner := c.ChanceAdded(1, 5, "cli.no-same-owner")
+	noPerm := c.ChanceAdded(1, 5, "cli.no-same-permissions")
+	noTime := !tarIn && c.ChanceAdded(1, 6, "cli.no-time")
+	if noOwner {
+		untarArgs = append(untarArgs, "--no-same-owner")
+		ignore["owner"], ignore["xattr"] = true, true // extended attributes are restored together with the owner
+	}
+	if noPerm {
+		untarArgs = append(untarArgs, "--no-same-permissions")
+		ignore["mode"] = true
+	}
+	if noTime {
+		tarArgs = append(tarArgs, "--no-time")
+		for _, t := range []string{"file", "dir", "symlink", "char", "block"} {
+			ignore["mtime-"+t] = true
+		}
+	}
+	if !tarIn && c.ChanceAdded(1, 6, "cli.one-file-system") {
+		tarArgs = append(tarArgs, "-x") // the tree lives on one file system: nothing may be left out
+	}
 	tarArgs = append(tarArgs, archive, src)
 	untarArgs = append(untarArgs, archive, dst)
-	c.Class(fmt.Sprintf("cli tar/untar index=%v sha256=%v tarin=%v cut=%v entries<=%d", useIndex, sha256mode, tarIn, cut, (nent+7)/8*8))
+	c.Class(fmt.Sprintf("cli tar/untar index=%v sha256=%v tarin=%v cut=%v owner=%v perm=%v time=%v entries<=%d", useIndex, sha256mode, tarIn, cut, !noOwner, !noPerm, !noTime, (nent+7)/8*8))
 	c.Note("real `desync %s` then `desync %s`", strings.Join(tarArgs, " "), strings.Join(untarArgs, " "))
 	c.NonTrivial()
 	exit, _, stderr, err := runDesync(tarArgs...)
@@ -628,7 +650,7 @@ func runC05Proc(c *fw.Case) {
 		return
 	}
 	// the mtree manifest of the source directory, of the archive or of the index lists the tree
-	if !tarIn || !cut {
+	if (!tarIn || !cut) && !noTime {
 		margs := append(append([]string{}, pre...), "mtree")
 		what := c.Draw(4, "cli.mtree")
 		switch {
@@ -679,6 +701,14 @@ func runC05Proc(c *fw.Case) {
 	if err != nil {
 		c.HarnessError("%v", err)
 		return
+	}
+	if noOwner {
+		for p, e := range got {
+			if e.UID != 0 || e.GID != 0 {
+				c.Violate("tree-differs", "desync tar+untar/no-same-owner", "%q was unpacked with --no-same-owner as root but belongs to %d:%d", p, e.UID, e.GID)
+				return
+			}
+		}
 	}
 	if cat, d := diffTrees(want, got, ignore); cat != "" {
 		if cut {
